@@ -189,6 +189,8 @@ const (
 	akiIssuerSer          // authorityCertIssuer + authorityCertSerialNumber
 	akiBoth               // keyId + issuer + serial
 	akiForeignKey         // keyId of some other key
+	akiSerialOnly         // authorityCertSerialNumber without authorityCertIssuer (malformed, seen in the wild)
+	akiURISerial          // authorityCertIssuer holding a URI instead of a directoryName + serial
 )
 
 type EEOpts struct {
